@@ -12,7 +12,7 @@
                             identifiers at a cut (ct_dom + ns_ok), well-formed buffered messages
                             (msg_typed + CoreCfg).
    Result: `prints_admitted_parsed` — for every parsed, accepted, closed program whose initial
-   configuration passes the decidable checks `rt_syn_ok` and `init_linear`, every Async run prints a
+   configuration passes the decidable check `init_linear`, every Async run prints a
    label sequence that spec/Sax.v prints from the program's own SAX initial configuration. *)
 From stdpp Require Import gmap strings.
 Require Import Grits.Base Grits.ModeDefs Grits.Modes Grits.STypes Grits.Forms Grits.Subst Grits.TcDeps Grits.Expand
@@ -20,7 +20,7 @@ Require Import Grits.Base Grits.ModeDefs Grits.Modes Grits.STypes Grits.Forms Gr
 Require Import Grits.spec.RtTyping Grits.spec.Topo Grits.spec.SynOk Grits.proofs.RuntimeFacts Grits.proofs.RtSafety
                Grits.proofs.RtInit Grits.proofs.RtTheorems Grits.proofs.AsyncSync Grits.proofs.TopoLin Grits.proofs.TopoStep
                Grits.proofs.TopoReach Grits.proofs.InitLinear Grits.proofs.RtTcSyn Grits.proofs.RtTcBisim
-               Grits.proofs.RtTcSoundTop Grits.proofs.ParseSynOk Grits.proofs.RtStaticCheck.
+               Grits.proofs.RtTcSoundTop Grits.proofs.ParseSynOk Grits.proofs.ParseRaw Grits.proofs.RtStaticCheck.
 Require Import Grits.spec.Sax Grits.proofs.Causality Grits.proofs.SaxRefine Grits.proofs.SaxInv.
 
 (* a8's core fragment is the linear fragment of SaxRefine *)
@@ -57,6 +57,7 @@ Ltac name_leaf :=
   match goal with
   | H : prov_name _ _ ?n, Hk : chan ?n = Some _ |- _ => by destruct (prov_name_in _ _ _ _ H Hk)
   | H : binder ?n, Hk : chan ?n = Some _ |- _ => by destruct (binder_in _ _ H Hk)
+  | H : pbinder ?n, Hk : chan ?n = Some _ |- _ => by (unfold pbinder in H; congruence)
   | H : client_ty _ _ _ _ ?n _, Hk : chan ?n = Some _ |- _ => by eapply (client_in _ _ _ _ _ _ H Hk)
   end.
 
@@ -228,12 +229,12 @@ End Runs.
 
 (* ------------------------------------------------------------------ accepted programs *)
 (* The premises: the program is accepted and closed (in_fragment: no assumed names); prog_syn_ok and
-   rt_syn_ok (the types and names are what the parser produces — computable; the first is a theorem
-   for parsed programs, ParseSynOk.parse_syn_ok); init_linear (decidable, InitLinear.init_linear_b:
+   raw_ok (the types and names are what the parser produces — computable, and THEOREMS for parsed
+   programs: ParseSynOk.parse_syn_ok, ParseRaw.parse_raw_ok, so the parsed versions below do not carry them); init_linear (decidable, InitLinear.init_linear_b:
    function bodies and initial bodies in the core fragment and affine, one provider per process, the
    initial configuration a forest). *)
 Theorem prints_admitted_tc p p' :
-  typecheck p = Accept p' -> in_fragment p' -> prog_syn_ok p = true -> rt_syn_ok p = true ->
+  typecheck p = Accept p' -> in_fragment p' -> prog_syn_ok p = true -> raw_ok p = true ->
   init_linear p' ->
   forall fuel pick, exists C',
     sax_steps (p_funs p') false (sax_init p')
@@ -256,19 +257,19 @@ Qed.
 
 (* programs that come out of the parser: prog_syn_ok is a theorem *)
 Theorem prints_admitted_parsed txt p p' :
-  parse_string txt = POk p -> typecheck p = Accept p' -> in_fragment p' -> rt_syn_ok p = true ->
+  parse_string txt = POk p -> typecheck p = Accept p' -> in_fragment p' ->
   init_linear p' ->
   forall fuel pick, exists C',
     sax_steps (p_funs p') false (sax_init p')
       (labels (res_config (exec_run fuel pick Async (p_types p') (p_funs p') (init_config p')))) C'.
-Proof. intros Hp Ha Hf RS. exact (prints_admitted_tc p p' Ha Hf (parse_syn_ok _ _ Hp) RS). Qed.
+Proof. intros Hp Ha Hf. exact (prints_admitted_tc p p' Ha Hf (parse_syn_ok _ _ Hp) (parse_raw_ok _ _ Hp)). Qed.
 
 (* the premises as one computable verdict on the program text (what the check module evaluates) *)
 Definition c04_premises_text (txt : string) : bool :=
   match parse_string txt with
   | POk p =>
     match typecheck p with
-    | Accept p' => in_fragment_b p' && rt_syn_ok p && init_linear_b p'
+    | Accept p' => in_fragment_b p' && init_linear_b p'
     | _ => false
     end
   | _ => false
@@ -282,8 +283,8 @@ Theorem prints_admitted_text txt : c04_premises_text txt = true ->
 Proof.
   unfold c04_premises_text. destruct (parse_string txt) as [p| | |] eqn:Hp; try discriminate.
   destruct (typecheck p) as [p'| | |] eqn:Ha; try discriminate.
-  intros [[Hf RS]%andb_prop Hi]%andb_prop. exists p, p'. split; [done|]. split; [done|].
-  apply (prints_admitted_parsed txt p p' Hp Ha); [by apply in_fragment_b_sound|done|by apply init_linear_b_sound].
+  intros [Hf Hi]%andb_prop. exists p, p'. split; [done|]. split; [done|].
+  apply (prints_admitted_parsed txt p p' Hp Ha); [by apply in_fragment_b_sound|by apply init_linear_b_sound].
 Qed.
 
 (* SaxRefine.linear_program is inside a8's core fragment: its two conditions are the `core_funs` and
@@ -347,7 +348,7 @@ End RunsMd.
 (* both polarized modes *)
 Theorem prints_admitted_tc_md md p p' :
   is_np md = false ->
-  typecheck p = Accept p' -> in_fragment p' -> prog_syn_ok p = true -> rt_syn_ok p = true ->
+  typecheck p = Accept p' -> in_fragment p' -> prog_syn_ok p = true -> raw_ok p = true ->
   init_linear p' ->
   forall fuel pick, exists C',
     sax_steps (p_funs p') false (sax_init p')
@@ -371,9 +372,9 @@ Qed.
 
 Theorem prints_admitted_parsed_md md txt p p' :
   is_np md = false ->
-  parse_string txt = POk p -> typecheck p = Accept p' -> in_fragment p' -> rt_syn_ok p = true ->
+  parse_string txt = POk p -> typecheck p = Accept p' -> in_fragment p' ->
   init_linear p' ->
   forall fuel pick, exists C',
     sax_steps (p_funs p') false (sax_init p')
       (labels (res_config (exec_run fuel pick md (p_types p') (p_funs p') (init_config p')))) C'.
-Proof. intros Hnp Hp Ha Hf RS. exact (prints_admitted_tc_md md p p' Hnp Ha Hf (parse_syn_ok _ _ Hp) RS). Qed.
+Proof. intros Hnp Hp Ha Hf. exact (prints_admitted_tc_md md p p' Hnp Ha Hf (parse_syn_ok _ _ Hp) (parse_raw_ok _ _ Hp)). Qed.
